@@ -104,6 +104,11 @@ func pointOf(ins ssa.Instruction) point {
 // instruction satisfying target, along which no instruction satisfies avoid. Calls to diverging functions end a path.
 // It returns the witness path (instructions with positions worth showing) or nil if there is no such path.
 func (fc *flowCtx) pathAvoiding(fn *ssa.Function, from ssa.Instruction, target, avoid func(ssa.Instruction) bool) []ssa.Instruction {
+	return fc.pathFrom(fn, from, target, avoid, nil)
+}
+
+// pathFrom is pathAvoiding with an additional predicate on CFG edges that must not be taken.
+func (fc *flowCtx) pathFrom(fn *ssa.Function, from ssa.Instruction, target, avoid func(ssa.Instruction) bool, cutEdge func(pred, succ *ssa.BasicBlock) bool) []ssa.Instruction {
 	type node struct {
 		b     *ssa.BasicBlock
 		start int
@@ -139,6 +144,9 @@ func (fc *flowCtx) pathAvoiding(fn *ssa.Function, from ssa.Instruction, target, 
 			last = n.b.Instrs[len(n.b.Instrs)-1]
 		}
 		for _, s := range n.b.Succs {
+			if cutEdge != nil && cutEdge(n.b, s) {
+				continue
+			}
 			t := trail
 			if last != nil {
 				t = append(append([]ssa.Instruction{}, trail...), last)
@@ -551,6 +559,12 @@ func isErrorReturn(i ssa.Instruction) bool {
 // control can neither reach a success return of fn nor come back to the call (a `continue`).
 // allowEOF accepts `errors.Is(e, io.EOF)`/`e == io.EOF` as the one permitted non-propagating branch.
 func (fc *flowCtx) errPropagated(fn *ssa.Function, call ssa.Instruction, e ssa.Value) errOutcome {
+	return fc.errPropagatedExcept(fn, call, e, nil)
+}
+
+// errPropagatedExcept: as errPropagated, but edges satisfying cutEdge are legitimate ways out of the error branch
+// (e.g. the `errors.Is(err, io.EOF)` branch of a read loop).
+func (fc *flowCtx) errPropagatedExcept(fn *ssa.Function, call ssa.Instruction, e ssa.Value, cutEdge func(pred, succ *ssa.BasicBlock) bool) errOutcome {
 	if e == nil {
 		return errOutcome{false, "the error result is discarded", call, nil}
 	}
@@ -601,7 +615,7 @@ func (fc *flowCtx) errPropagated(fn *ssa.Function, call ssa.Instruction, e ssa.V
 		if bad(first) {
 			return errOutcome{false, "the error branch returns success", first, nil}
 		}
-		if p := fc.pathAvoiding(fn, first, bad, nil); p != nil {
+		if p := fc.pathFrom(fn, first, bad, nil, cutEdge); p != nil {
 			lastI := p[len(p)-1]
 			msg := "with the error known to be non-nil, control reaches a successful return: the failure is swallowed"
 			if lastI == call {
